@@ -6,6 +6,7 @@ import (
 	"os"
 	"os/exec"
 	"path/filepath"
+	"runtime"
 	"runtime/debug"
 	"sort"
 	"strconv"
@@ -259,6 +260,7 @@ func genSchedPlan(master uint64, run int) Plan {
 	}
 	pl.FpEvery = r.Chance(1, 8)
 	pl.ParkInCrit = r.Chance(1, 4)
+	pl.Procs = []int{1, 1, 4, 16}[r.Intn(4)]
 	return pl
 }
 
@@ -682,6 +684,9 @@ func lateInit(changed []string, res *SchedResult) []string {
 func runSched(pl *Plan, atomic bool, keepTrace bool) (res SchedResult) {
 	res.Faults = map[string]int{}
 	nt := len(pl.Tasks)
+	if pl.Procs > 0 && runtime.GOMAXPROCS(0) != pl.Procs {
+		runtime.GOMAXPROCS(pl.Procs) // a tuning knob of the runtime, varied per plan (sync.Pool reuse depends on it)
+	}
 
 	// ---- "run alone" reference on a twin world (before or after the scheduled run, see Plan.Order)
 	want := make([][]string, nt)
@@ -978,6 +983,7 @@ func schedWorker() {
 		if pl.ParkInCrit {
 			out.Extra["plans_allowed_to_park_inside_critical_sections"]++
 		}
+		out.Extra[fmt.Sprintf("gomaxprocs:%d", pl.Procs)]++
 		out.Extra["task_op_aborts(panic/hang, C02's business)"] += int64(res.TaskAborts)
 		out.Extra["fingerprint_nodes_last"] = int64(res.FpNodes)
 		for t := range pl.Tasks {
